@@ -230,14 +230,16 @@ theorem floor_eq (toInt : α → Int) (h : IsTruncCast toInt) (x : α) (hx : |x|
     rw [h (-x) (by rwa [abs_neg]), truncZ, if_pos hy]
     have hfl : ⌊x⌋ = -⌈-x⌉ := by rw [Int.ceil_neg, neg_neg]
     rw [hfl]
-    congr 1
     by_cases hgt : -x > ((⌊-x⌋ : Int) : α)
-    · rw [if_pos hgt]; symm; rw [Int.ceil_eq_iff]; push_cast
-      exact ⟨by linarith, (Int.lt_floor_add_one (-x)).le⟩
+    · rw [if_pos hgt]
+      have : ⌈-x⌉ = ⌊-x⌋ + 1 := by
+        rw [Int.ceil_eq_iff]; push_cast
+        exact ⟨by linarith, (Int.lt_floor_add_one (-x)).le⟩
+      rw [this]; ring
     · rw [if_neg hgt]
       have : -x = ((⌊-x⌋ : Int) : α) := le_antisymm (not_lt.mp hgt) (Int.floor_le (-x))
-      rw [add_zero]; conv_rhs => rw [this]
-      exact (Int.ceil_intCast _).symm
+      have hc : ⌈-x⌉ = ⌊-x⌋ := by conv_lhs => rw [this]; exact Int.ceil_intCast _
+      rw [hc]; ring
 
 theorem ceil_eq (toInt : α → Int) (h : IsTruncCast toInt) (x : α) (hx : |x| < 2147483648) :
     ceil toInt x = ⌈x⌉ := by
@@ -300,6 +302,18 @@ theorem lerp_zero (a b : α) : lerp a b 0 = a := by unfold lerp; ring
 theorem lerp_one (a b : α) : lerp a b 1 = b := by unfold lerp; ring
 theorem ulerp_eq_lerp (a b t : α) : ulerp a b t = lerp a b t := by
   unfold ulerp lerp; split_ifs <;> ring
+
+/-- `ulerp` at unsigned `T`: whichever of a, b is larger, the unsigned difference taken is the non-wrapping one, so the
+result is the affine interpolation (the two arms swapped would subtract the larger from the smaller and wrap) -/
+theorem ulerpU_spec (cast : Nat → α) (hcast : ∀ n : Nat, cast n = (n : α)) (a b : Nat)
+    (ha : a < 4294967296) (hb : b < 4294967296) (t : α) :
+    ulerpU cast a b t = (a : α) + ((b : α) - (a : α)) * t := by
+  unfold ulerpU
+  split_ifs with h
+  · have e : (a + 4294967296 - b) % 4294967296 = a - b := by omega
+    rw [e, hcast, hcast, Nat.cast_sub (by omega : b ≤ a)]; ring
+  · have e : (b + 4294967296 - a) % 4294967296 = b - a := by omega
+    rw [e, hcast, hcast, Nat.cast_sub (by omega : a ≤ b)]
 
 theorem equalWithAbsError_spec (x1 x2 e : α) : equalWithAbsError x1 x2 e = true ↔ |x1 - x2| ≤ e := by
   unfold equalWithAbsError
@@ -549,11 +563,31 @@ theorem mods32_eq (x y : Int) (hy0 : y ≠ 0) (hx : inInt32 x = true) (hy : inIn
   · rw [wrap32_id (-x) (by rw [inInt32_iff]; omega), wrap32_id (-y) (by rw [inInt32_iff]; omega),
       mod32_some _ _ (by omega) (by omega), Option.map_some, wrap32_id _ (by rw [inInt32_iff]; omega)]
 
+/-- BEFORE /repo commit f9bac53 `modp = x - y * divp (x, y)` was computed in int arithmetic: beyond the intermediates of
+`divp` it had the int PRODUCT `y * divp`, which equals `x - x % y` and lies below INT_MIN for x within |y| - 1 of INT_MIN;
+that was the only further overflow -/
+theorem modpOld_noOverflow_iff (x y : Int) (hy0 : y ≠ 0) (hx : inInt32 x = true) (hy : inInt32 y = true)
+    (hno : noOverflow (divpSteps x y) = true) :
+    noOverflow (modpStepsOld x y) = true ↔ -2147483648 ≤ x - x % y := by
+  have hq : divp x y = x / y := divp_eq_ediv x y hy0
+  have hprod : y * (x / y) = x - x % y := by have := Int.emod_add_mul_ediv x y; omega
+  have hr0 := Int.emod_nonneg x hy0
+  have hr1 := Int.emod_lt_abs x hy0
+  rw [inInt32_iff] at hx hy
+  unfold noOverflow at hno ⊢
+  unfold modpStepsOld
+  rw [List.all_append, hno, Bool.true_and, hq, hprod]
+  simp only [List.all_cons, List.all_nil, Bool.and_true, Bool.and_eq_true, inInt32_iff]
+  have habs : |y| ≤ 2147483648 := by rw [abs_le]; omega
+  constructor
+  · intro h; exact h.1.1
+  · intro h; omega
+
 section
 variable {α : Type} [Field α] [LinearOrder α] [IsStrictOrderedRing α] [FloorRing α]
 
 theorem floorSteps_inRange (toInt : α → Int) (h : IsTruncCast toInt) (x : α)
-    (hlo : -2147483647 ≤ x) (hhi : x < 2147483648) : noOverflow (floorSteps toInt x) = true := by
+    (hlo : -2147483648 < x) (hhi : x < 2147483648) : noOverflow (floorSteps toInt x) = true := by
   have habs : |x| < 2147483648 := by rw [abs_lt]; constructor <;> linarith
   unfold noOverflow floorSteps
   by_cases h0 : x ≥ 0
@@ -570,18 +604,111 @@ theorem floorSteps_inRange (toInt : α → Int) (h : IsTruncCast toInt) (x : α)
     have h1 : (0 : Int) ≤ ⌊-x⌋ := Int.floor_nonneg.mpr hy
     have h2 : ⌊-x⌋ ≤ 2147483647 := by
       rw [← Int.lt_add_one_iff, Int.floor_lt]; push_cast; linarith
-    have h3 : (if -x > ((⌊-x⌋ : Int) : α) then (1 : Int) else 0) = 1 → ⌊-x⌋ + 1 ≤ 2147483647 := by
-      intro hh
-      split_ifs at hh with hgt
-      · -- -x > floor and -x ≤ 2147483647 → floor < 2147483647
-        have : ((⌊-x⌋ : Int) : α) < ((2147483647 : Int) : α) := by push_cast; linarith
-        have := Int.cast_lt.mp this
-        omega
-      · omega
     simp only [List.all_cons, List.all_nil, Bool.and_true, Bool.and_eq_true, inInt32_iff]
-    split_ifs at h3 ⊢ with hgt
-    · have := h3 rfl; omega
-    · omega
+    split_ifs <;> omega
+
+/-- the expression BEFORE /repo commit 04462ef: for x in (-2^31, -(2^31 - 1)) (doubles only) the cast gives
+`int (-x) = 2^31 - 1`, `-x` is not an integer, so `int (-x) + 1 = 2^31` overflowed although `⌊x⌋ = -2^31` IS an `int` -/
+theorem floorStepsOld_overflow (toInt : α → Int) (h : IsTruncCast toInt) (x : α)
+    (hlo : -2147483648 < x) (hhi : x < -2147483647) :
+    noOverflow (floorStepsOld toInt x) = false ∧ ⌊x⌋ = -2147483648 ∧ inInt32 ⌊x⌋ = true := by
+  have habs : |x| < 2147483648 := by rw [abs_lt]; constructor <;> linarith
+  have h0 : ¬ x ≥ 0 := by intro h0; linarith
+  have hy : 0 ≤ -x := by linarith
+  have hfl : ⌊-x⌋ = 2147483647 := by
+    rw [Int.floor_eq_iff]; push_cast; constructor <;> linarith
+  have hgt : -x > ((⌊-x⌋ : Int) : α) := by rw [hfl]; push_cast; linarith
+  have hfx : ⌊x⌋ = -2147483648 := by
+    rw [Int.floor_eq_iff]; push_cast; constructor <;> linarith
+  refine ⟨?_, hfx, by rw [hfx]; decide⟩
+  unfold noOverflow floorStepsOld
+  rw [if_neg h0, h (-x) (by rwa [abs_neg]), truncZ, if_pos hy, if_pos hgt, hfl]
+  decide
+
+/-- what the compiled code (wrapping `int` arithmetic) returns: `⌊x⌋` on the whole of |x| < 2^31 -/
+theorem floor32_eq (toInt : α → Int) (h : IsTruncCast toInt) (x : α) (hx : |x| < 2147483648) :
+    floor32 toInt x = ⌊x⌋ := by
+  have hfe := floor_eq toInt h x hx
+  obtain ⟨hxl, hxh⟩ := abs_lt.mp hx
+  by_cases h0 : x ≥ 0
+  · unfold floor32; rw [if_pos h0]; unfold floor at hfe; rw [if_pos h0] at hfe; exact hfe
+  · have hno := floorSteps_inRange toInt h x hxl hxh
+    unfold noOverflow floorSteps at hno
+    rw [if_neg h0] at hno
+    simp only [List.all_cons, List.all_nil, Bool.and_true, Bool.and_eq_true] at hno
+    unfold floor32 neg32
+    rw [if_neg h0, wrap32_id _ hno.2.1, wrap32_id _ hno.2.2]
+    unfold floor at hfe; rw [if_neg h0] at hfe; exact hfe
+
+/-- every `int` intermediate of `ceil` is representable for -2^31 < x ≤ 2^31 - 1 -/
+theorem ceilSteps_inRange (toInt : α → Int) (h : IsTruncCast toInt) (x : α)
+    (hlo : -2147483648 < x) (hhi : x ≤ 2147483647) : noOverflow (ceilSteps toInt x) = true := by
+  have habs : |x| < 2147483648 := by rw [abs_lt]; constructor <;> linarith
+  have h1 := floorSteps_inRange toInt h (-x) (by linarith) (by linarith)
+  have hfe := floor_eq toInt h (-x) (by rwa [abs_neg])
+  unfold noOverflow at h1 ⊢
+  unfold ceilSteps
+  rw [List.all_append, h1, Bool.true_and, hfe, Int.floor_neg, neg_neg]
+  simp only [List.all_cons, List.all_nil, Bool.and_true, inInt32_iff]
+  have hc1 : ⌈x⌉ ≤ 2147483647 := by rw [Int.ceil_le]; push_cast; exact hhi
+  have hc2 : -2147483648 < ⌈x⌉ := by rw [Int.lt_ceil]; push_cast; exact hlo
+  omega
+
+theorem ceil32_eq (toInt : α → Int) (h : IsTruncCast toInt) (x : α)
+    (hlo : -2147483648 < x) (hhi : x ≤ 2147483647) : ceil32 toInt x = ⌈x⌉ := by
+  have habs : |x| < 2147483648 := by rw [abs_lt]; constructor <;> linarith
+  unfold ceil32 neg32
+  rw [floor32_eq toInt h (-x) (by rwa [abs_neg]), Int.floor_neg, neg_neg]
+  have hc1 : ⌈x⌉ ≤ 2147483647 := by rw [Int.ceil_le]; push_cast; exact hhi
+  have hc2 : -2147483648 < ⌈x⌉ := by rw [Int.lt_ceil]; push_cast; exact hlo
+  exact wrap32_id _ (by rw [inInt32_iff]; omega)
+
+/-- on (2^31 - 1, 2^31) (doubles only) `⌈x⌉ = 2^31` is not an `int`: the final negation `-floor (-x) = -INT_MIN`
+overflows, and the wrapping evaluation returns INT_MIN -/
+theorem ceil_overflow (toInt : α → Int) (h : IsTruncCast toInt) (x : α)
+    (hlo : 2147483647 < x) (hhi : x < 2147483648) :
+    ⌈x⌉ = 2147483648 ∧ inInt32 ⌈x⌉ = false ∧ noOverflow (ceilSteps toInt x) = false ∧
+    ceil32 toInt x = -2147483648 := by
+  have habs : |x| < 2147483648 := by rw [abs_lt]; constructor <;> linarith
+  have hc : ⌈x⌉ = 2147483648 := by
+    rw [Int.ceil_eq_iff]; push_cast; constructor <;> linarith
+  have hfe := floor_eq toInt h (-x) (by rwa [abs_neg])
+  rw [Int.floor_neg, hc] at hfe
+  refine ⟨hc, by rw [hc]; decide, ?_, ?_⟩
+  · unfold noOverflow ceilSteps
+    rw [List.all_append, hfe]
+    simp only [List.all_cons, List.all_nil, Bool.and_true]
+    have : inInt32 (- -2147483648) = false := by decide
+    rw [this, Bool.and_false]
+  · unfold ceil32
+    rw [floor32_eq toInt h (-x) (by rwa [abs_neg]), Int.floor_neg, hc]
+    decide
+
+theorem truncSteps_inRange (toInt : α → Int) (h : IsTruncCast toInt) (x : α) (hx : |x| < 2147483648) :
+    noOverflow (truncSteps toInt x) = true ∧ trunc32 toInt x = truncZ x := by
+  obtain ⟨hxl, hxh⟩ := abs_lt.mp hx
+  have hte := trunc_eq toInt h x hx
+  unfold noOverflow truncSteps trunc32 neg32
+  unfold trunc at hte
+  by_cases h0 : x ≥ 0
+  · rw [if_pos h0] at hte ⊢
+    rw [if_pos h0]
+    refine ⟨?_, hte⟩
+    simp only [List.all_cons, List.all_nil, Bool.and_true, inInt32_iff]
+    rw [hte, truncZ, if_pos h0]
+    have h1 : (0 : Int) ≤ ⌊x⌋ := Int.floor_nonneg.mpr h0
+    have h2 : ⌊x⌋ < 2147483648 := by rw [Int.floor_lt]; push_cast; exact hxh
+    omega
+  · rw [if_neg h0] at hte ⊢
+    rw [if_neg h0]
+    have hy : 0 ≤ -x := by linarith [not_le.mp h0]
+    have hti : toInt (-x) = ⌊-x⌋ := by rw [h (-x) (by rwa [abs_neg]), truncZ, if_pos hy]
+    have h1 : (0 : Int) ≤ ⌊-x⌋ := Int.floor_nonneg.mpr hy
+    have h2 : ⌊-x⌋ < 2147483648 := by rw [Int.floor_lt]; push_cast; linarith
+    have hin : inInt32 (-toInt (-x)) = true := by rw [inInt32_iff, hti]; omega
+    refine ⟨?_, by rw [wrap32_id _ hin]; exact hte⟩
+    simp only [List.all_cons, List.all_nil, Bool.and_true, Bool.and_eq_true]
+    exact ⟨by rw [inInt32_iff, hti]; omega, hin⟩
 end
 
 end ImathVerif.Fun
